@@ -20,7 +20,8 @@ Descr(l) == CASE l = "sign"   -> {<<"kIdp1", "signing">>}
               [] l = "noUse"  -> {<<"kIdp1", "none">>}
               [] l = "signAndEnc" -> {<<"kIdp1", "signing">>, <<"kIdp1b", "encryption">>}
               [] OTHER -> {}
-Issuers == {"idp1", "idp2", "unknown"}
+\* "idp1case": the identifier of idp1 in another letter case -- another entity, one that metadata does not know
+Issuers == {"idp1", "idp2", "unknown", "idp1case"}
 \* level "request": the same certificate selection on the other side -- an identity provider receiving a signed
 \* AuthnRequest; "idp1" / "idp2" then name two service providers in the receiver's metadata (the keys are just keys)
 Scn == [layout : Layouts, issuer : Issuers, signKey : Keys, embedded : Keys \cup {"none"},
